@@ -466,6 +466,9 @@ fn chk(out: &mut Shards, id: usize, t: &mut Td, rng: &mut Rng) -> bool {
             "rev":bytes[5] & 4 != 0,
             "minb":min.to_le_bytes().to_vec(),"maxb":max.to_le_bytes().to_vec(),
             "mb":cs.iter().map(|c| c.0.to_le_bytes().to_vec()).collect::<Vec<_>>(),
+            // the same two ranks asked first of an untouched copy (values may still sit in its buffer)
+            "rminf1e6":(untouched.clone().rank(min).unwrap() * 1e6).round() as i64,
+            "rmaxf1e6":(untouched.clone().rank(max).unwrap() * 1e6).round() as i64,
             "rmin1e6":(t.d.rank(min).unwrap() * 1e6).round() as i64,
             "rmax1e6":(t.d.rank(max).unwrap() * 1e6).round() as i64})
     }));
